@@ -69,31 +69,34 @@ pub struct ReadConsumesReader;
 pub struct PolygonFieldsPrivate;
 
 pub mod macros {
-    use shapefile::{multipatch, polygon, NO_DATA};
+    //! One function per form of `polygon!` / `multipatch!`.  Every coordinate literal is distinct and says where it belongs:
+    //! vertex i has x = 10i+1, y = 10i+2, then (by type) z = 10i+3, m = 10i+4, or m = 10i+3 for the XYM type — the checker reads
+    //! the points the expansion builds and compares each field with the literal written at that position.
+    use shapefile::{multipatch, polygon};
 
     pub fn polygon_struct_xy() -> shapefile::Polygon {
-        polygon! { Outer({x: 0.0, y: 0.0}, {x: 0.0, y: 1.0}, {x: 1.0, y: 1.0}) }
+        polygon! { Outer({x: 1.0, y: 2.0}, {x: 11.0, y: 12.0}, {x: 21.0, y: 22.0}) }
     }
     pub fn polygon_tuple_xy() -> shapefile::Polygon {
-        polygon! { Outer((0.0, 0.0), (0.0, 1.0), (1.0, 1.0)), Inner((0.1, 0.1), (0.2, 0.2), (0.1, 0.2)) }
+        polygon! { Outer((1.0, 2.0), (11.0, 12.0), (21.0, 22.0)), Inner((31.0, 32.0), (41.0, 42.0), (51.0, 52.0)) }
     }
     pub fn polygon_struct_xym() -> shapefile::PolygonM {
-        polygon! { Outer({x: 0.0, y: 0.0, m: 1.0}, {x: 0.0, y: 1.0, m: 2.0}, {x: 1.0, y: 1.0, m: 3.0}) }
+        polygon! { Outer({x: 1.0, y: 2.0, m: 3.0}, {x: 11.0, y: 12.0, m: 13.0}, {x: 21.0, y: 22.0, m: 23.0}) }
     }
     pub fn polygon_tuple_xym() -> shapefile::PolygonM {
-        polygon! { Outer((0.0, 0.0, 1.0), (0.0, 1.0, 2.0), (1.0, 1.0, 3.0)) }
+        polygon! { Outer((1.0, 2.0, 3.0), (11.0, 12.0, 13.0), (21.0, 22.0, 23.0)) }
     }
     pub fn polygon_struct_xyzm() -> shapefile::PolygonZ {
-        polygon! { Outer({x: 0.0, y: 0.0, z: 0.0, m: NO_DATA}, {x: 0.0, y: 1.0, z: 0.0, m: NO_DATA}, {x: 1.0, y: 1.0, z: 0.0, m: NO_DATA}) }
+        polygon! { Outer({x: 1.0, y: 2.0, z: 3.0, m: 4.0}, {x: 11.0, y: 12.0, z: 13.0, m: 14.0}, {x: 21.0, y: 22.0, z: 23.0, m: 24.0}) }
     }
     pub fn polygon_tuple_xyzm() -> shapefile::PolygonZ {
-        polygon! { Outer((0.0, 0.0, 0.0, NO_DATA), (0.0, 1.0, 0.0, NO_DATA), (1.0, 1.0, 0.0, NO_DATA)) }
+        polygon! { Outer((1.0, 2.0, 3.0, 4.0), (11.0, 12.0, 13.0, 14.0), (21.0, 22.0, 23.0, 24.0)) }
     }
     pub fn multipatch_struct() -> shapefile::Multipatch {
-        multipatch! { OuterRing({x: 0.0, y: 0.0, z: 0.0, m: NO_DATA}, {x: 0.0, y: 1.0, z: 0.0, m: NO_DATA}, {x: 1.0, y: 1.0, z: 0.0, m: NO_DATA}) }
+        multipatch! { OuterRing({x: 1.0, y: 2.0, z: 3.0, m: 4.0}, {x: 11.0, y: 12.0, z: 13.0, m: 14.0}, {x: 21.0, y: 22.0, z: 23.0, m: 24.0}) }
     }
     pub fn multipatch_tuple() -> shapefile::Multipatch {
-        multipatch! { FirstRing((0.0, 0.0, 0.0, NO_DATA), (0.0, 1.0, 0.0, NO_DATA), (1.0, 1.0, 0.0, NO_DATA)) }
+        multipatch! { FirstRing((1.0, 2.0, 3.0, 4.0), (11.0, 12.0, 13.0, 14.0), (21.0, 22.0, 23.0, 24.0)) }
     }
 }
 
